@@ -196,10 +196,11 @@ pub fn behaviour() -> Behaviour {
         cfg,
         adjust: no_adjust,
         render,
-        quick: 4000,
+        quick: 7000,
         thorough: 20000,
         batch: 25,
         assumptions: &["the statement's std-equivalence clause is limited to ordinary identifiers, so raw identifiers are left to C01"],
         miri_units: 0,
+        extra: None,
     }
 }
